@@ -384,6 +384,9 @@ func (c *fctx) isErrCheck(s ast.Stmt, errVar *types.Var) bool {
 	if y, ok := be.Y.(*ast.Ident); !ok || y.Name != "nil" {
 		return false
 	}
+	old := c.nonNil[errVar]
+	c.nonNil[errVar] = true
+	defer func() { c.nonNil[errVar] = old }()
 	return c.isPlainErrorReturn(ifs.Body.List)
 }
 
